@@ -15,7 +15,7 @@ Proof.
   intros s a s' x H Hx Hs. cbn [step] in H. unfold get_actor in H. rewrite Hx in H. cbn [bind] in H.
   apply check_acc in H. destruct H as [_ H]. apply check_acc in H. destruct H as [Hp H].
   destruct (a_phase x) eqn:Ep; try discriminate Hp.
-  unfold deq, mb_deq in H. destruct (m_queue (a_mb x)) as [|p q] eqn:Eq; [discriminate|].
+  unfold deq, mb_deq in H. destruct (m_queue (a_mb x)) as [|p q] eqn:Eq; [cbn in H; destruct (Nat.eqb (sc_ty (a_cfg x)) 9); discriminate H|].
   destruct p; try discriminate. rewrite Hs in H.
   destruct (sc_strat (a_cfg x)); injection H as <-; exists o, q; eexists; cbn; rewrite upd_same; repeat split; exact Ep.
 Qed.
